@@ -2743,8 +2743,10 @@ class PGPKey(Armorable, ParentRef, PGPObject):
         ##TODO: see issue #141 and fix this better
         def _getpkt(d):
             return Packet(d) if d else None
-        # some packets are filtered out
-        getpkt = filter(lambda p: p.header.tag != PacketTag.Trust, iter(functools.partial(_getpkt, data), None))
+        # some packets are filtered out: trust packets are local to a keyring, and a marker packet
+        # "MUST be ignored when received" (RFC 4880 5.8)
+        getpkt = filter(lambda p: p.header.tag not in (PacketTag.Trust, PacketTag.Marker),
+                        iter(functools.partial(_getpkt, data), None))
 
         def pktgrouper():
             class PktGrouper(object):
